@@ -141,7 +141,68 @@ pub fn check_display(pieces: &[String], wrap: u8, l: &mut Local) -> CaseResult {
     Ok(())
 }
 
+/// Two messages decoded one after the other from one reader, the second with the scratch the first call handed back:
+/// what the first value borrows is still what was encoded (the values of both calls are alive together).
+pub fn check_reader_chain(shape: &Shape, v1: &Value, v2: &Value, slack: usize, l: &mut Local) -> CaseResult {
+    use crate::dynshape::{with_shape, Dyn};
+    let (Ok(e1), Ok(e2)) = (crate::refcodec::ref_encode(shape, v1), crate::refcodec::ref_encode(shape, v2)) else { return Ok(()) };
+    let cj = || json!({"reader_chain": true, "shape": shape, "value": v1, "value2": v2, "slack": slack});
+    let Ok(d1) = crate::refcodec::ref_decode(shape, &e1.bytes) else { return Ok(()) };
+    let mut stream = e1.bytes.clone();
+    stream.extend_from_slice(&e2.bytes);
+    let need = scratch_need(shape, v1) + scratch_need(shape, v2);
+    let mut scratch = vec![0xCDu8; need + slack];
+    l.eval();
+    let rd: &[u8] = &stream;
+    let (r1, log1) = with_shape(shape, || crate::runner::no_panic(|| postcard::from_io::<Dyn, _>((rd, &mut scratch[..]))));
+    let r1 = r1.map_err(|p| fail("roundtrip", format!("from_io panicked: {}", p), cj()))?;
+    if log1.skipped_zero_width {
+        return Ok(());
+    }
+    let (a, (rd2, rest)) = match r1 {
+        Ok(x) => x,
+        Err(e) => return Err(fail("roundtrip", format!("from_io failed with {:?} on the first of two messages", e), cj())),
+    };
+    let (r2, log2) = with_shape(shape, || crate::runner::no_panic(|| postcard::from_io::<Dyn, _>((rd2, rest))));
+    let r2 = r2.map_err(|p| fail("roundtrip", format!("from_io panicked: {}", p), cj()))?;
+    if log2.skipped_zero_width {
+        return Ok(());
+    }
+    let b = match r2 {
+        Ok((b, _)) => b,
+        Err(e) => return Err(fail("roundtrip", format!("from_io failed with {:?} on the second message (scratch: what both messages route through it + {})", e, slack), cj())),
+    };
+    if a.0 != *v1 || b.0 != *v2 {
+        return Err(fail("roundtrip", format!("two messages read from one stream came back as {:?} and {:?}", a.0, b.0), cj()));
+    }
+    // the bytes the first value borrows, looked at after the second call
+    if log1.borrows.len() == d1.payload_spans.len() {
+        for ((p, n), (off, m)) in log1.borrows.iter().zip(&d1.payload_spans) {
+            if n != m {
+                continue;
+            }
+            let now: &[u8] = if *n == 0 { &[] } else { unsafe { std::slice::from_raw_parts(*p as *const u8, *n) } };
+            if now != &e1.bytes[*off..*off + *m] {
+                return Err(fail(
+                    "roundtrip",
+                    format!("after decoding the next message with the returned scratch, a string/bytes field borrowed by the first value reads {} instead of {}", crate::runner::hex(now), crate::runner::hex(&e1.bytes[*off..*off + *m])),
+                    cj(),
+                ));
+            }
+        }
+    }
+    if !log1.borrows.is_empty() {
+        l.nontrivial(&(&stream, slack, "chain"));
+    }
+    l.class("reader-chain");
+    Ok(())
+}
+
 pub fn replay(case: &Json, l: &mut Local) -> CaseResult {
+    if case.get("reader_chain").is_some() {
+        let v2: Value = serde_json::from_value(case["value2"].clone()).map_err(|e| fail("roundtrip", format!("bad replay: {}", e), case.clone()))?;
+        return check_reader_chain(&shape_of(case), &value_of(case), &v2, case["slack"].as_u64().unwrap_or(0) as usize, l);
+    }
     if let Some(p) = case.get("display_pieces") {
         let pieces: Vec<String> = serde_json::from_value(p.clone()).unwrap_or_default();
         return check_display(&pieces, case["wrap"].as_u64().unwrap_or(0) as u8, l);
@@ -240,6 +301,23 @@ pub fn run(ctx: &Ctx) {
         |(pieces, wrap), l| check_display(pieces, *wrap, l),
     );
 
+    // (b2') many elements, little data per element
+    ctx.par_proptest("long-sparse-collections", ctx.tier.pick(2_000, 30_000), gen::arb_long_sparse, |(s, v), l| {
+        l.class("long-sparse-collection");
+        check(s, v, TAILS[1], false, l)
+    });
+    // (b3) two messages through one reader and its returned scratch
+    ctx.par_proptest(
+        "reader-chain-borrowed",
+        n / 8,
+        || {
+            gen::arb_shape(ShapeCfg { depth: 2, ..ShapeCfg::default() }).prop_flat_map(|s| {
+                let v = gen::arb_value(&s, ValCfg { max_len: 24, max_seq: 3 });
+                (Just(s), v.clone(), v, 0usize..3)
+            })
+        },
+        |(s, v1, v2, slack), l| check_reader_chain(s, v1, v2, *slack, l),
+    );
     // (c) deep chains and wide aggregates
     let n = ctx.tier.pick(40_000, 400_000);
     ctx.par_proptest(
